@@ -580,3 +580,50 @@ Definition convertible_fix (e : expr) : bool := negb (is_bv_symbol e) && frag_fi
 (** the domain in which the property is claimed, per variant of the code *)
 Definition roundtrip_domain (v : variant) (e : expr) : bool :=
   match v with Cur => convertible_shape e | Fix => convertible_fix e end.
+
+(** ** the repaired side conditions (patches/0016-fix-egraph-rules-derived-width-fits-u32.diff)
+
+    [Cur] = the rule table [rules] above; [Fix] = with the patch: the conditions are computed with
+    checked u32 arithmetic ([checked_add], [checked_width_left_shift]) and additionally require
+    that the width derived on the right-hand side ([max+1 ?wb ?wc], [wlsh ?wa ?wb]) fits a u32.
+    Patterns and names are unchanged; no condition can panic any more. *)
+
+Local Open Scope string_scope.
+
+(** arithmetic.rs [checked_width_left_shift(..).is_some()] / [.is_some_and(|w| wo >= w)] *)
+Definition fits32 (r : res N) : bool := match r with Ok _ => true | Panic => false end.
+Definition le_checked (r : res N) (wo : N) : bool := match r with Ok w => (w <=? wo)%N | Panic => false end.
+
+Definition rule_merge_left_shift_fix : rule := {|
+  r_name := r_name rule_merge_left_shift;
+  r_lhs := r_lhs rule_merge_left_shift;
+  r_rhs := r_rhs rule_merge_left_shift;
+  r_cond_vars := ["?wo"; "?wab"; "?wb"; "?wc"];
+  r_cond := Some (fun w => w0 <- nth_w w 0 ;; w1 <- nth_w w 1 ;; w2 <- nth_w w 2 ;; w3 <- nth_w w 3 ;;
+                           Ok ((w0 <=? w1) && (N.max w2 w3 <? u32_max))%N) |}.
+
+Definition rule_unmerge_left_shift_fix : rule := {|
+  r_name := r_name rule_unmerge_left_shift;
+  r_lhs := r_lhs rule_unmerge_left_shift;
+  r_rhs := r_rhs rule_unmerge_left_shift;
+  r_cond_vars := ["?wbc"; "?wb"; "?wc"; "?wa"];
+  r_cond := Some (fun w => w0 <- nth_w w 0 ;; w1 <- nth_w w 1 ;; w2 <- nth_w w 2 ;; w3 <- nth_w w 3 ;;
+                           Ok ((N.max w1 w2 <? w0)%N && fits32 (eval_width_left_shift w3 w1))) |}.
+
+Definition rule_left_shift_mult_fix : rule := {|
+  r_name := r_name rule_left_shift_mult;
+  r_lhs := r_lhs rule_left_shift_mult;
+  r_rhs := r_rhs rule_left_shift_mult;
+  r_cond_vars := r_cond_vars rule_left_shift_mult;
+  r_cond := Some (fun w => w0 <- nth_w w 0 ;; w1 <- nth_w w 1 ;; w2 <- nth_w w 2 ;;
+                           w3 <- nth_w w 3 ;; w4 <- nth_w w 4 ;;
+                           Ok (le_checked (checked32 (w1 + w2)) w0 && le_checked (eval_width_left_shift w0 w4) w3)) |}.
+
+Local Close Scope string_scope.
+
+Definition rules_v (v : variant) : list rule :=
+  match v with
+  | Cur => rules
+  | Fix => [ rule_commute_add; rule_commute_mul; rule_merge_left_shift_fix; rule_unmerge_left_shift_fix;
+             rule_mult_to_add; rule_left_shift_mult_fix ]
+  end.
